@@ -1103,5 +1103,17 @@ theorem inv_newGlyph (P : Params V) (T : Tables) (hcov : Coverage T = true) (w :
     exact inv_newGlyph_core P T hcov w _ _ name w.clock hinv hdom (get?_none_of_not_contains hc')
       rfl rfl rfl rfl rfl rfl rfl rfl rfl rfl rfl rfl hd2
 
+/-- every operation preserves the cache invariant -/
+theorem step_inv (P : Params V) (T : Tables) (hcov : Coverage T = true) (hpatch : PatchOK P) (w : World V)
+    (op : Op) (hinv : Inv P T w) (hdom : Dom w) (hdom' : Dom (step P T w op).1) : Inv P T (step P T w op).1 := by
+  cases hn : op.isNameOp with
+  | false => exact step_inv_local P T hcov hpatch w op hn hinv hdom hdom'
+  | true =>
+    cases op with
+    | newGlyph name => exact inv_newGlyph P T hcov w name hinv hdom hdom'
+    | delGlyph name => exact inv_delGlyph P T hcov w name hinv hdom
+    | rename old new => exact inv_rename P T hcov w old new hinv hdom hdom'
+    | _ => cases hn
+
 end Repr
 end DefconModel
